@@ -56,6 +56,45 @@ func GoEnv(extra ...string) []string {
 	return out
 }
 
+// GeneratedCache, when set, is the GOCACHE used for building *generated* code. Every run compiles
+// hundreds of packages whose content is unique to that run; in the shared build cache they would pile up
+// (134 GB after a day of runs). core.NewCtx points this at a hard-link clone of the shared cache inside the
+// run's scratch directory, which disappears with it; the shared cache only holds the stable dependencies.
+var GeneratedCache string
+
+// GeneratedEnv is GoEnv for commands that compile generated code.
+func GeneratedEnv(extra ...string) []string {
+	env := GoEnv(extra...)
+	if GeneratedCache != "" {
+		env = append(env, "GOCACHE="+GeneratedCache)
+	}
+	return env
+}
+
+// CloneSharedCache hard-links the shared Go build cache into dir and returns dir ("" when that is not
+// possible, e.g. across file systems: the shared cache is then used directly).
+func CloneSharedCache(dir string) string {
+	if os.Getenv("VERIF_SHARED_GOCACHE") != "" {
+		return ""
+	}
+	cmd := exec.Command("go", "env", "GOCACHE")
+	cmd.Env = GoEnv()
+	out, err := cmd.Output()
+	shared := strings.TrimSpace(string(out))
+	if err != nil || shared == "" {
+		return ""
+	}
+	if _, err := os.Stat(shared); err != nil {
+		return ""
+	}
+	if out, err := exec.Command("cp", "-al", shared, dir).CombinedOutput(); err != nil {
+		_ = os.RemoveAll(dir)
+		_ = out
+		return ""
+	}
+	return dir
+}
+
 // Set is a directory of built plugin binaries.
 type Set struct {
 	Dir string
